@@ -34,12 +34,31 @@ def ipts(X, scale=1):
 SHARED = {}
 
 
+PROUTE = [0]
+
+
 def affine_event(darsia, rng, dim, ks, tid):
     # half of the events re-parametrise one long-lived object per dimension: the map is a function of the parameters set last
     A = SHARED.setdefault(dim, darsia.AffineTransformation(dim)) if rng.random() < 0.5 else darsia.AffineTransformation(dim)
     sn, sd = rng.choice([(1, 1), (2, 1), (1, 2)])
     t = [rng.randint(-5, 5) for _ in range(dim)]
-    A.set_parameters(translation=np.array(t, dtype=float), scaling=sn / sd, rotation=np.array([k * math.pi / 2 for k in ks]))
+    # the parameters reach the object by the routes the API offers, taken in turn: one call with keywords, positionally, one
+    # parameter per call in any order (the object may hold other values from before), or as one vector
+    rot = np.array([k * math.pi / 2 for k in ks])
+    PROUTE[0] += 1
+    proute = PROUTE[0] % 4
+    if proute == 0:
+        A.set_parameters(translation=np.array(t, dtype=float), scaling=sn / sd, rotation=rot)
+    elif proute == 1:
+        A.set_parameters(np.array(t, dtype=float), sn / sd, rot)
+    elif proute == 2:
+        calls_ = [dict(translation=np.array(t, dtype=float)), dict(scaling=sn / sd), dict(rotation=rot)]
+        rng.shuffle(calls_)
+        for kw_ in calls_:
+            A.set_parameters(**kw_)
+    else:
+        A.isometry = False
+        A.set_parameters_as_vector(np.concatenate([np.array(t, dtype=float), [sn / sd], rot]))
     pts = np.array([[rng.randint(-6, 6) for _ in range(dim)] for _ in range(6)], dtype=float)
     single = pts[0]
     fwd = A.call_array(pts)
